@@ -317,3 +317,112 @@ fn c02w_message_whole_nonverbose_min() {
     std::mem::forget(got);
     std::mem::forget(m);
 }
+
+// ---------------------------------------------------------------------------
+// W(shape) for the WHOLE message: Message::as_bytes == reference encoding
+// (storage header ++ standard header ++ extended header ++ payload in message
+// byte order), all data symbolic, control literal per shape.
+// ---------------------------------------------------------------------------
+fn vec_of(d: &[u8; 4], n: usize) -> Vec<u8> {
+    let mut v = Vec::with_capacity(n);
+    let mut i = 0;
+    while i < n {
+        v.push(d[i]);
+        i += 1;
+    }
+    v
+}
+
+/// The message value described by a shape and the data the reference encoder used.
+pub fn message_of(s: &Shape, bt: &Built) -> Message {
+    let h = &bt.h;
+    let big = s.htyp & HTYP_MSBF != 0;
+    let payload = match s.payload {
+        P::Verbose(shapes) => {
+            let mut v = Vec::with_capacity(shapes.len());
+            let mut i = 0;
+            while i < shapes.len() {
+                v.push(make_arg(&shapes[i], &bt.args[i]));
+                i += 1;
+            }
+            PayloadContent::Verbose(v)
+        }
+        P::NonVerbose(extra) => PayloadContent::NonVerbose(bt.nv_id, vec_of(&bt.nv_data, extra)),
+        P::Control(extra) => PayloadContent::ControlMsg(ControlType::from_value(bt.nv_id as u8), vec_of(&bt.nv_data, extra)),
+        P::NetTrace(lens) => {
+            let mut v = Vec::with_capacity(lens.len());
+            let mut i = 0;
+            while i < lens.len() {
+                v.push(vec_of(&bt.slices[i], lens[i]));
+                i += 1;
+            }
+            PayloadContent::NetworkTrace(v)
+        }
+    };
+    Message {
+        storage_header: if s.storage {
+            Some(StorageHeader { timestamp: DltTimeStamp { seconds: h.st_secs, microseconds: h.st_micros }, ecu_id: id_string(&h.st_ecu, h.st_ecu_len) })
+        } else {
+            None
+        },
+        header: StandardHeader {
+            version: s.htyp >> 5,
+            endianness: if big { Endianness::Big } else { Endianness::Little },
+            has_extended_header: s.htyp & HTYP_UEH != 0,
+            message_counter: h.mcnt,
+            ecu_id: if s.htyp & HTYP_WEID != 0 { Some(id_string(&h.ecu, h.ecu_len)) } else { None },
+            session_id: if s.htyp & HTYP_WSID != 0 { Some(h.session) } else { None },
+            timestamp: if s.htyp & HTYP_WTMS != 0 { Some(h.timestamp) } else { None },
+            payload_length: bt.payload_len as u16,
+        },
+        extended_header: if s.htyp & HTYP_UEH != 0 {
+            Some(ExtendedHeader {
+                verbose: s.msin & 1 == 1,
+                argument_count: h.noar,
+                message_type: crate::c14::ref_message_type(s.msin),
+                application_id: id_string(&h.apid, h.apid_len),
+                context_id: id_string(&h.ctid, h.ctid_len),
+            })
+        } else {
+            None
+        },
+        payload,
+    }
+}
+
+pub fn w_message(s: &Shape) {
+    let bt = build(s, 0, None, None);
+    let m = message_of(s, &bt);
+    let got = m.as_bytes();
+    assert!(same(&got, bt.buf.slice()), "whole message bytes differ from the reference layout");
+    assert!(m.byte_len() as usize == bt.msg_end - bt.msg_start, "byte_len differs from the serialisation without storage header");
+    kani::cover!(true, "whole message serialised");
+    std::mem::forget(got);
+    std::mem::forget(m);
+}
+
+macro_rules! w_msg {
+    ($name:ident, $shape:expr) => {
+        #[kani::proof]
+        #[kani::unwind(100)]
+        fn $name() {
+            let s: Shape = $shape;
+            w_message(&s);
+        }
+    };
+}
+w_msg!(c02w_msg_nonverbose_min, Shape { storage: false, htyp: H_MIN, msin: 0, ids: IDS_FULL, payload: P::NonVerbose(2) });
+w_msg!(c02w_msg_nonverbose_ext_storage_be, Shape { storage: true, htyp: H_ALL_BE, msin: M_LOG_WARN_NV, ids: IDS_SHORT, payload: P::NonVerbose(3) });
+w_msg!(c02w_msg_control_le, Shape { storage: false, htyp: H_EXT_LE, msin: M_CTRL_REQ, ids: IDS_FULL, payload: P::Control(2) });
+w_msg!(c02w_msg_nettrace_be, Shape { storage: false, htyp: H_EXT_BE, msin: M_NW_CAN_V, ids: IDS_FULL, payload: P::NetTrace(&[3]) });
+// (two slices: CBMC reports a counterexample that does not reproduce natively - an over-approximation somewhere in
+// BytesMut's growth path when the payload vector holds two inner vectors; the two- and three-slice payload layout is
+// decided at unit level in c02w_payload_nettrace_*)
+w_msg!(c02w_msg_nettrace_storage_le, Shape { storage: true, htyp: H_EXT_LE, msin: M_NW_CAN_V, ids: IDS_FULL, payload: P::NetTrace(&[2]) });
+w_msg!(c02w_msg_verbose_bool_le, Shape { storage: false, htyp: H_EXT_LE, msin: M_LOG_INFO_V, ids: IDS_FULL, payload: P::Verbose(&[arg(AK::Bool)]) });
+w_msg!(c02w_msg_verbose_u32_named_be_storage, Shape { storage: true, htyp: H_ALL_BE, msin: M_LOG_INFO_V, ids: IDS_FULL, payload: P::Verbose(&[arg_v(AK::U(4), 2, 1)]) });
+w_msg!(c02w_msg_nettrace_empty, Shape { storage: false, htyp: H_EXT_BE, msin: M_NW_CAN_V, ids: IDS_SHORT, payload: P::NetTrace(&[]) });
+w_msg!(c02w_msg_verbose_f64_all_le, Shape { storage: false, htyp: H_ALL_LE, msin: M_APP_V, ids: IDS_FULL, payload: P::Verbose(&[arg(AK::F(8))]) });
+w_msg!(c02w_msg_verbose_raw_be, Shape { storage: false, htyp: H_EXT_BE, msin: M_LOG_INFO_V, ids: IDS_FULL, payload: P::Verbose(&[arg(AK::Raw)]) });
+w_msg!(c02w_msg_verbose_sfix64_v_storage, Shape { storage: true, htyp: H_EXT_LE, msin: M_LOG_INFO_V, ids: IDS_FULL, payload: P::Verbose(&[arg_v(AK::SFix(8), 1, 2)]) });
+w_msg!(c02w_msg_verbose_empty, Shape { storage: false, htyp: H_EXT_LE, msin: M_LOG_INFO_V, ids: IDS_SHORT, payload: P::Verbose(&[]) });
